@@ -323,7 +323,7 @@ def check_shared_tables(repo: Repo, run: Run, prop: str, fns, path) -> None:
         mod = repo.mod(modname)
         shared: Dict[Tuple[Optional[str], str], ast.AST] = {}
         for st in mod.tree.body:
-            if isinstance(st, (ast.Assign, ast.AnnAssign)) and st.value is not None and isinstance(strip_cast(st.value), (ast.Dict, ast.List, ast.Set)):
+            if isinstance(st, (ast.Assign, ast.AnnAssign)) and st.value is not None and _is_container(st.value):
                 for t in (st.targets if isinstance(st, ast.Assign) else [st.target]):
                     if isinstance(t, ast.Name):
                         shared[(None, t.id)] = st
@@ -333,7 +333,7 @@ def check_shared_tables(repo: Repo, run: Run, prop: str, fns, path) -> None:
                 for m in st.body:
                     if isinstance(m, (ast.Assign, ast.AnnAssign)) and m.value is not None:
                         v = strip_cast(m.value)
-                        mutable = isinstance(v, (ast.Dict, ast.List, ast.Set)) or (isinstance(v, ast.Call) and dotted(v.func) in ("dict", "list", "set", "collections.defaultdict", "defaultdict", "collections.OrderedDict", "OrderedDict"))
+                        mutable = _is_container(v)
                         if mutable:
                             for t in (m.targets if isinstance(m, ast.Assign) else [m.target]):
                                 if isinstance(t, ast.Name) and t.id not in inst:
@@ -439,6 +439,16 @@ def check_shared_tables(repo: Repo, run: Run, prop: str, fns, path) -> None:
                            f"{f.label}: `{ast.unparse(x)[:60]}` writes through a ChainMap whose first layer is the process-wide table {c0[1]}: the entries are registered for every later program",
                            repo.mod(f.mod).loc(x))
     run.unit(f"{prop}.H1.shared_table_writes", n)
+
+
+CONTAINER_CTORS = {"dict", "list", "set", "defaultdict", "OrderedDict", "WeakKeyDictionary", "WeakValueDictionary", "WeakSet", "deque", "Counter", "LRUCache"}
+
+
+def _is_container(v: ast.AST) -> bool:
+    """A mutable container created once (literal, or a call of a container class: dict(), defaultdict(list),
+    weakref.WeakKeyDictionary(), ...)."""
+    v = strip_cast(v)  # type: ignore[arg-type]
+    return isinstance(v, (ast.Dict, ast.List, ast.Set)) or (isinstance(v, ast.Call) and (dotted(v.func) or "").split(".")[-1] in CONTAINER_CTORS)
 
 
 def check_channels(repo: Repo, run: Run, prop: str) -> None:
@@ -604,3 +614,7 @@ def check(repo: Repo, run: Run) -> None:
     )
     run.assumptions = ["third-party objects (the lark parser) carry no evaluation-relevant mutable state between parse() calls"]
     check_channels(repo, run, "C05")
+    # H7: parse() uses the parser its CELParser object was built with; re-reading the process-wide slot makes an older
+    # Environment parse with whatever parser (tree class) the most recently created Environment installed
+    # (instance shared with C16.T1, where the same read is a race)
+    run.borrow(repo, "C16", "C05.H7", lambda o: o["rule"] == "C16.T1" and "shared-slot" in o["key"], 1)
